@@ -967,6 +967,8 @@ def gen_chain(r):
     forward or backward, through virtual fields, conditions or locations; <= 300 lines."""
     n = r.choice([20, 100, 200, 250, 280, 296])
     mode = r.choice(["let_fwd", "let_back", "loc", "cond"])
+    if mode == "let_back":
+        n = min(n, 120)     # bounds inference is quadratic in the chain length (120 links ≈ 7 s CPU)
     L = ["struct Foo:", "  0 [+1]  UInt  x"]
     if mode == "let_fwd":
         L += ["  let f%d = f%d + 1" % (i, i + 1) for i in range(n)] + ["  let f%d = x" % n]
@@ -976,7 +978,7 @@ def gen_chain(r):
         n = min(n, 290)
         L += ["  let f0 = x"] + ["  let f%d = f%d" % (i + 1, i) for i in range(n)] + ["  f%d [+1]  UInt  y" % n]
     else:
-        n = min(n, 145)
+        n = min(n, 290)
         L += ["  let f0 = x == 1"]
         for i in range(n):
             L += ["  let f%d = f%d && true" % (i + 1, i)]
